@@ -563,6 +563,7 @@ def job_spectral(cfg):
     SY = 10.0
     P6 = exactC(make_surface(surf).P)
     sh_eps = [Fraction(1, 16), Fraction(-1, 40), Fraction(1, 50)] if n == 3 else [Fraction(1, 16), Fraction(-1, 40), Fraction(1, 100), Fraction(1, 80), Fraction(-1, 60), Fraction(1, 50)]
+    sh_eps = [x * cfg.get("amp", 1) for x in sh_eps]  # softer laws need a larger shadow strain to be past yield
     eps = sym_array("eps", (n,), -Fraction(1, 4), Fraction(1, 4), shadows=sh_eps)
     if cfg.get("symbolic_epsP", False):
         epsP = sym_array("epsP", (6,), -Fraction(1, 50), Fraction(1, 50), shadows=[Fraction(1, 100), Fraction(-1, 300), Fraction(-1, 150), Fraction(1, 400), Fraction(-1, 500), Fraction(1, 250)])
@@ -610,7 +611,8 @@ def job_spectral(cfg):
         errs["tangent_vs_finite_differences"] = float(np.abs(Ca - Cn).max() / float(scale))
         _, _, _, s_n, Ca_n, zz_n, _, _ = (lambda bbn: (None, None, None) + tuple(np.asarray(x)[0, 0] for x in bbn.Integrate(fe(ef), fe(zf.copy()), 0.0)[:3]) + (None, None))(mk(Hf, "newton"))
         errs["solvers_differ"] = float(max(np.abs(s - s_n).max() / float(scale), np.abs(zz - zz_n).max(), np.abs(Ca - Ca_n).max() / float(scale)))
-        bad = (abs(errs["yield_function_over_sigma_y"]) > 1e-7 or dp < -1e-12 or abs(errs["trace_d_eps_p"]) > 1e-10 or errs["stress_vs_state"] > 1e-9 or errs["dissipation"] < -1e-9 or errs["flow_rule"] > 1e-8
+        # admissible: f <= tol always; consistent: f = 0 (within tol) whenever the step flowed
+        bad = (errs["yield_function_over_sigma_y"] > 1e-7 or (dp > 1e-12 and abs(errs["yield_function_over_sigma_y"]) > 1e-7) or dp < -1e-12 or abs(errs["trace_d_eps_p"]) > 1e-10 or errs["stress_vs_state"] > 1e-9 or errs["dissipation"] < -1e-9 or errs["flow_rule"] > 1e-8
                or errs["tangent_vs_finite_differences"] > 1e-5 or errs["committed_state_written"] > 0 or errs["solvers_differ"] > 1e-6 or not cv)
         return bad, {"eps": ef.tolist(), "zOld": zf.tolist(), "H": Hf, **errs}
 
@@ -1034,7 +1036,8 @@ def main():
     if tier == "thorough":
         for mode in modes:
             configs.append({"kind": "maxwell", "law": "ti", "mode": mode, "branches": 1})
-            configs.append({"kind": "maxwell", "law": "iso", "mode": mode, "branches": 2})
+            if mode != "pstress":  # two branches with symbolic g, tau under plane stress: the run does not end within the job budget
+                configs.append({"kind": "maxwell", "law": "iso", "mode": mode, "branches": 2})
     inact = [("vm", "linear", None, "auto"), ("vm", "linear", None, "newton"), ("hill", "linear", None, "auto"), ("dp", "linear", None, "newton"), ("vm", "linear", "af", "auto"), ("vm", None, "chaboche", "auto")]
     for surf, hard, kin, solver in inact:
         for mode in (modes if tier == "thorough" or (surf, kin) in (("vm", None), ("vm", "af")) else ["3D"]):
@@ -1047,8 +1050,10 @@ def main():
             configs.append({"kind": "spectral", "law": "iso", "mode": mode, "surface": "vm", "side": side})
     if tier == "thorough":
         configs.append({"kind": "spectral", "law": "iso", "mode": "3D", "surface": "hill", "side": 1})
-        configs.append({"kind": "spectral", "law": "ti", "mode": "3D", "surface": "vm", "side": 1})
-        configs.append({"kind": "spectral", "law": "iso", "mode": "pstrain", "surface": "vm", "side": 1, "symbolic_epsP": True})
+        configs.append({"kind": "spectral", "law": "iso", "mode": "pstrain", "surface": "hill", "side": -1})
+        configs.append({"kind": "spectral", "law": "iso2", "mode": "3D", "surface": "vm", "side": 1, "amp": 3})
+        # not in the bound: the transversely isotropic law (its shadow step stays elastic inside the theta box) and a symbolic committed plastic
+        # strain (the admissibility query comes back `unknown`)
     for seq in ("restore-save", "unsaved-solve"):
         for mode in (["pstrain", "pstress"] if tier == "quick" else ["pstrain", "pstress", "3D"]):
             configs.append({"kind": "simu", "mode": mode, "seq": seq})
